@@ -298,6 +298,37 @@ def transplant(ovl_text, new_tokens, kind):
                     a -= 1
                 j = fwd[a] + 1 if a >= 0 else 0
         placed.setdefault(j, []).append((text, is_line))
+    # Tail bindings.  An annotation that ends in `let <name> =` wraps the REAL tail expression up to the next annotation that starts
+    # with `;` (`let r = <tail> ; proof { .. } r`).  That is meaning-preserving only if what lies between is ONE expression.  When the
+    # code in /repo changed so that statements now precede the tail expression (`f(x)` became `f(x); y`), the binding is moved to
+    # the last expression: the statements keep running as statements and the value that is really returned is the one bound.
+    order = sorted(placed)
+    for a, j1 in enumerate(order):
+        for n_ann, (text, is_line) in enumerate(list(placed[j1])):
+            m = re.search(r"let\s+(?:ghost\s+)?\w+\s*=\s*$", text)
+            if not m or is_line:
+                continue
+            j2 = None
+            for jj in order:
+                if jj > j1 and any(t.lstrip().startswith(";") for t, _ in placed[jj]):
+                    j2 = jj
+                    break
+            if j2 is None:
+                continue
+            depth, last_semi = 0, None
+            for q in range(j1, j2):
+                x = new_tokens[q]
+                if x in ("(", "[", "{"):
+                    depth += 1
+                elif x in (")", "]", "}"):
+                    depth -= 1
+                elif x == ";" and depth == 0:
+                    last_semi = q
+            if last_semi is None:
+                continue
+            head, tail = text[:m.start()], text[m.start():]
+            placed[j1][n_ann] = (head, is_line)
+            placed.setdefault(last_semi + 1, []).append((tail, False))
     # emit
     out_tokens = []
     marks = {}
